@@ -181,7 +181,8 @@ fn random_op(r: &mut Rng) -> Op {
 fn run_align<T: Alignment>(cfg: &Cfg, log: &mut Log, label: &str, part: usize) {
     let alpha = alphabet();
     let k = alpha.len();
-    let depth = if cfg.thorough { 5 } else { 4 };
+    // length-5 enumeration (1 118 480 histories per alignment) only in the optimised flavour
+    let depth = if cfg.thorough && !cfg!(debug_assertions) { 5 } else { 4 };
     let mut stats = (0u64, 0u64);
     // exhaustive enumeration of all histories of length ≤ depth; shards
     // split the space by the first letter
